@@ -521,3 +521,104 @@ def _ob(name, ok, detail=''):
 
 
 METHODS = ('identifier', 'keyword', 'delimiter', 'operator', 'stringliteral', 'bytesliteral', 'fstring', 'integer', 'imagnumber', 'floatnumber')
+
+
+def task_delimiter():
+    """token_printer.Delimiter (used by contract in the printers): as a context manager with add_parens it prints '(' before the first item and ')'
+    on exit exactly when an item was printed; between items exactly the separator.  Lemma: the parentheses of a `with Delimiter(...)` group balance."""
+    tp = tp_module()
+    obs_all = []
+    name = 'C02/L4/Delimiter'
+
+    def setup(ctx):
+        policy = TokenPolicy()
+        interp = Interp(ctx, policy=policy)
+        emitted = []
+        pr = ctx.new_obj('ns', name='terminal_printer')
+        interp.hooks['%s:TokenPrinter.delimiter' % TP] = lambda it, f, a, k: emitted.append(a[1])
+
+        class PP(TokenPolicy):
+            def attr(self, it, obj, nm):
+                if obj == pr and nm == 'delimiter':
+                    return Native(_emit)
+                return TokenPolicy.attr(self, it, obj, nm)
+        interp.policy = PP()
+        interp.natives[_emit] = lambda it, a, k: emitted.append(a[0])
+        o = ctx.new_obj('inst', tp.Delimiter, name='group')
+        first, cm, parens = z3.Bool('first_before'), z3.Bool('context_manager_before'), z3.Bool('add_parens')
+        sep = z3.String('separator')
+        ctx.data(o).fields.update({'_terminal_printer': pr, '_delimiter': sep, '_add_parens': parens, '_first': first, '_context_manager': cm})
+        return interp, o, emitted, first, cm, parens, sep
+
+    def bz(v):
+        return v if z3.is_expr(v) else z3.BoolVal(bool(v))
+
+    def run_new_item(ctx):
+        interp, o, emitted, first, cm, parens, sep = setup(ctx)
+        interp.call(interp.getattr(o, 'new_item'), [], {})
+        d = ctx.data(o)
+        ctx.check(name + '.new_item/afterwards-the-group-is-no-longer-empty', z3.Not(bz(d.fields['_first'])), kind='post')
+        if emitted == ['(']:
+            ctx.check(name + '.new_item/opening-parenthesis-only-before-the-first-item-of-a-parenthesised-context-group', z3.And(first, cm, parens), kind='post')
+        elif len(emitted) == 1:
+            ctx.check(name + '.new_item/between-items-exactly-the-separator', z3.And(z3.Not(first), z3.BoolVal(emitted[0] is sep or (z3.is_expr(emitted[0]) and emitted[0].eq(sep)))),
+                      kind='post', detail=repr(emitted))
+        else:
+            ctx.check(name + '.new_item/nothing-printed-only-for-the-first-item-of-a-bare-group', z3.And(first, z3.Not(z3.And(cm, parens)), z3.BoolVal(emitted == [])), kind='post',
+                      detail=repr(emitted))
+        for f in ('_add_parens', '_context_manager', '_delimiter', '_terminal_printer'):
+            pass
+        ctx.check(name + '.new_item/configuration-is-not-changed', d.fields['_add_parens'] is parens and d.fields['_context_manager'] is cm and d.fields['_delimiter'] is sep, kind='frame')
+
+    def run_exit(ctx):
+        interp, o, emitted, first, cm, parens, sep = setup(ctx)
+        interp.call(interp.getattr(o, '__exit__'), [None, None, None], {})
+        if emitted == [')']:
+            ctx.check(name + '.__exit__/closing-parenthesis-only-when-an-item-was-printed-in-a-parenthesised-group', z3.And(z3.Not(first), parens), kind='post')
+        else:
+            ctx.check(name + '.__exit__/no-closing-parenthesis-only-for-an-empty-or-bare-group', z3.And(z3.Or(first, z3.Not(parens)), z3.BoolVal(emitted == [])), kind='post',
+                      detail=repr(emitted))
+
+    def run_enter(ctx):
+        interp, o, emitted, first, cm, parens, sep = setup(ctx)
+        r = interp.call(interp.getattr(o, '__enter__'), [], {})
+        d = ctx.data(o)
+        ctx.check(name + '.__enter__/marks-the-group-as-context-managed-and-prints-nothing', z3.And(bz(d.fields['_context_manager']), z3.BoolVal(emitted == [] and r == o)), kind='post')
+        ctx.check(name + '.__enter__/leaves-the-rest-alone', d.fields['_first'] is first and d.fields['_add_parens'] is parens, kind='frame')
+
+    def run_init(ctx):
+        policy = TokenPolicy()
+        interp = Interp(ctx, policy=policy)
+        pr = ctx.new_obj('ns', name='terminal_printer')
+        o = interp.instantiate(tp.Delimiter, [pr], {'add_parens': z3.Bool('add_parens')})
+        d = ctx.data(o)
+        ctx.check(name + '.__init__/a-new-group-is-empty-and-not-context-managed', z3.And(bz(d.fields['_first']), z3.Not(bz(d.fields['_context_manager']))), kind='post')
+    notes = []
+    und = []
+    for label, fn in (('new_item', run_new_item), ('__exit__', run_exit), ('__enter__', run_enter), ('__init__', run_init)):
+        ex = Explorer()
+        ex.explore(fn)
+        obs_all += [o.to_json() for o in ex.obligations]
+        if ex.undecided_reason:
+            und.append((label, ex.undecided_reason))
+        notes.append('Delimiter.%s: %d feasible paths' % (label, len([p for p in ex.paths if p[0] == 'ok'])))
+    # lemma over the four contracts: in `with Delimiter(p, add_parens=a) as d: d.new_item()*n` the '(' is printed iff the ')' is
+    a, n_pos = z3.Bool('add_parens'), z3.Bool('at_least_one_item')
+    first0, cm0 = z3.BoolVal(True), z3.BoolVal(False)                    # post of __init__
+    first1, cm1 = first0, z3.BoolVal(True)                                # post of __enter__
+    opened = z3.If(n_pos, z3.And(first1, cm1, a), z3.BoolVal(False))      # post of the first new_item (later ones print the separator only)
+    first_end = z3.If(n_pos, z3.BoolVal(False), first1)                   # post of new_item: the group is no longer empty
+    closed = z3.And(z3.Not(first_end), a)                                 # post of __exit__
+    s = z3.Solver()
+    s.add(opened != closed)
+    obs_all.append({'name': name + '/lemma/parentheses-of-a-with-group-balance', 'status': 'proved' if s.check() == z3.unsat else 'refuted',
+                    'detail': 'from the contracts of __init__, __enter__, new_item, __exit__', 'model': {}, 'time_s': 0, 'backend': 'z3', 'path': None, 'kind': 'lemma', 'goal': None})
+    res = result(obs_all, [source.describe('%s:Delimiter.%s' % (TP, m)) for m in ('__init__', '__enter__', '__exit__', 'new_item')], ASSUMPTIONS, notes=notes)
+    for label, why in und:
+        res['obligations'].append({'name': '%s.%s/engine' % (name, label), 'status': 'undecided', 'detail': why, 'model': {}, 'time_s': 0, 'backend': 'engine', 'path': None,
+                                   'kind': 'engine', 'goal': None})
+    return res
+
+
+def _emit(*a):
+    raise RuntimeError('model only')
